@@ -595,12 +595,27 @@ def run(info, out):
                 if N2 != N:
                     plan.append((len(datas) - 1, N2, "rand %d %d %d" % (8 if thorough else 4, rng.below(1 << 20), rng.choice([0, 5]))))
     cov["cases_with_repeated_trial_steps"] = sum(1 for d in datas if tied(d))
+    #    (b') MANY trial steps and MANY workers: 30..40 coefficients reaching zero (n_alpha up to 42) under 31, 32, 33 and 40 workers —
+    #    worker indices beyond 31 receive a trial only when both are large (any per-worker bookkeeping wider than a machine word,
+    #    any block arithmetic on n_alpha / n_threads is exercised here)
+    nbig0 = len(datas)
+    for k in range(2 if not thorough else 6):
+        nFb = rng.choice([30, 33, 36, 40])
+        d = gen_data(rng, nF=nFb, nneg=nFb, ties=(k % 2 == 1))
+        for kk, fi in enumerate(d["F"]):
+            if dfrom(int(d["x"][fi], 16)) == 0.0:
+                d["x"][fi] = H(0.5 + 0.01 * kk)
+        datas.append(d)
+        for N in ((32, 33) if not thorough else (31, 32, 33, 40)):
+            plan.append((len(datas) - 1, N, "rand 2 %d 0" % rng.below(1 << 20)))
+    cov["cases_with_many_trial_steps"] = len(datas) - nbig0
     refs = check_forced(exe, mexe, datas, plan, out, cov)
     #    (c) termination bound against the exact longest schedule of small configurations (model only)
     check_termination_bound(mexe, [(1, 2), (1, 3), (1, 4), (2, 2), (2, 3), (2, 4), (2, 5), (3, 3), (3, 4)] + ([(3, 6), (4, 4), (4, 5)] if thorough else []), out, cov)
 
     # 3. the property itself on free-running threads, every thread count
     nfree = check_free(exe, datas[len(small):][: (60 if thorough else 16) * boost] + datas[:len(small)], THREADS, 6 if thorough else 3, out, cov)
+    nfree += check_free(exe, datas[nbig0:], [1, 31, 32, 33, 48], 3 if thorough else 2, out, cov, tag="freebig")
     ne2e = check_thread_counts(exe, rng, (40 if thorough else 8) * boost, (20 if thorough else 3), out, cov,
                                threads=(list(range(1, 33)) if thorough else THREADS))
     # 4. TSan, free-running (thorough)
